@@ -164,6 +164,14 @@ def _check_ranking(ctx, syms, num_gt, order, nested, tied=False):
             last_tp = max((i for i, s in enumerate(syms) if W_AP[s]), default=-1)
             if n_tp == num_gt and last_tp < first_non_tp:
                 ctx.require(abs(ap.ap - 1.0) <= TOL, "perfect-not-one", lambda: f"AP {ap.ap} for a perfect ranking {''.join(syms)} / {num_gt} GT")
+    if tied and (num_gt > 0 or n_tp == 0):
+        # equal confidences: any order within the tie group is a ranking "by descending confidence"; AP is monotone in
+        # moving a TP ahead of a non-TP, so it must lie between the AP of the worst and of the best tie-consistent order
+        for got, W, nm in ((ap.ap, W_AP, "AP"), (aph.ap, W_APH, "APH")):
+            ws = [Fraction(W[s_]) for s_ in syms]
+            lo = RA.interpolated_ap(sorted(ws), num_gt)
+            hi = RA.interpolated_ap(sorted(ws, reverse=True), num_gt)
+            ctx.require(float(lo) - TOL <= got <= float(hi) + TOL, "ap-outside-tie-consistent-range", lambda: f"{nm} {got} with all confidences equal: any ordering gives a value in [{float(lo)}, {float(hi)}] ({''.join(syms)}, {num_gt} GT)")
     # bounds (also with tied confidences)
     if one_to_one:
         ctx.require(-TOL <= aph.ap <= ap.ap + TOL and ap.ap <= 1 + TOL, "ap-bounds", lambda: f"need 0 <= APH {aph.ap} <= AP {ap.ap} <= 1 ({''.join(syms)}, {num_gt} GT)")
